@@ -332,10 +332,11 @@ def check_single(ctx, rng):
 
 def check_anchor(ctx, rng):
     """Construction must be refused for anchors that do not match the roots of trust or are not properly self-signed."""
-    for i in range(ctx.n(28, 700)):
+    for i in range(ctx.n(32, 800)):
         depth = rng.randint(1, 3)
         H = Hierarchy(rng, depth, '%04x' % rng.getrandbits(16))
-        kind = ['ok', 'wrong-name', 'level-cert-as-anchor', 'not-self-signed', 'tampered', 'data-as-anchor', 'hmac-self-signed'][i % 7]
+        kind = ['ok', 'wrong-name', 'level-cert-as-anchor', 'not-self-signed', 'tampered', 'data-as-anchor', 'hmac-self-signed',
+                'self-signed-non-root-name'][i % 8]
         k0 = H.keys[0]
         if kind == 'ok':
             anchor = H.cert_wires[0]
@@ -344,6 +345,10 @@ def check_anchor(ctx, rng):
             anchor = bytes(self_sign(k.name, k.pub, k.signer(k.name))[1])
         elif kind == 'level-cert-as-anchor':
             anchor = H.cert_wires[1]
+        elif kind == 'self-signed-non-root-name':
+            # properly self-signed, but its name matches an intermediate rule (#l1), not the root of trust
+            k = Key(rng, 'ec', H.keys[1].name)
+            anchor = bytes(self_sign(k.name, k.pub, k.signer(k.name))[1])
         elif kind == 'not-self-signed':
             other = Key(rng, 'ec', k0.name)
             anchor = bytes(self_sign(k0.name, k0.pub, other.signer(k0.name))[1])      # right name, signed by another key
